@@ -216,11 +216,13 @@ Definition csi_final_c (t : term) (p : pst) (is_start : bool) (ch : Z) : outcome
     let r := rep_c t (print_cell t (last_char p)) (first_or ns 1) in (lift (fst r) d, snd r)
   else one t (csi_final t p is_start ch) (plain_ticks t p ch).
 
-(* CSI SP @ / CSI SP A *)
+(* CSI SP @ / CSI SP A; the two other finals of the SP group (D font selection, d tab stop remove) have no loop: outcome as in AnsiTok.astep_gen *)
 Definition csi_sp_c (t : term) (p : pst) (ch : Z) : outcome * cost :=
   let d := dflt p in
   if ch =? 65 then let r := sr_c t (first_or (nums p) 1) in (lift (fst r) d, snd r)
   else if ch =? 64 then let r := sl_c t (first_or (nums p) 1) in (ok (fst r) d, snd r)
+  else if ch =? 68 then (cmd_font_selection t p, mkCost 1 1 0)
+  else if ch =? 100 then (match nums p with [n] => ok (remove_tab_stop t (n - 1)) d | _ => err t d end, mkCost 1 1 0)
   else (err t d, mkCost 1 1 0).
 
 (* the known class of this dispatcher: REP with a count beyond the screen *)
